@@ -211,6 +211,14 @@ func runCfgCase(c *cfgCase, bin, dir string) (kind, what string, inconcl string)
 		}
 		os.WriteFile(fp, append([]byte(sb.String()), body...), 0o644)
 	}
+	// a configuration file reached through a symbolic link (a mounted ConfigMap, /etc/alternatives, stow)
+	if c.Index%4 == 2 {
+		fp := filepath.Join(dir, "vflow.conf")
+		os.MkdirAll(filepath.Join(dir, "..data"), 0o755)
+		if err := os.Rename(fp, filepath.Join(dir, "..data", "vflow.conf")); err == nil {
+			os.Symlink(filepath.Join("..data", "vflow.conf"), fp)
+		}
+	}
 	var env, flags []string
 	for k, v := range c.Env {
 		env = append(env, k+"="+v)
@@ -629,7 +637,7 @@ func configMain(args mon.Args) {
 	}
 	run.Set("key_x_source_cells_covered", len(cells))
 	run.Set("keys_observed", len(ckeys))
-	run.SetRule("every observed key (4 UDP ports, 4 enable switches, 4 worker counts, stats port/address/format/enabled, pid file, log file, verbose, 2 cache files, cpu-cap, producer-enabled, dynamic-workers, ipfix-rpc-enabled: integer, string and boolean kinds) gets an independent subset of {VFLOW_* environment, configuration file, command line} by a Latin square over 16 collector processes (every key meets all 8 subsets), with a distinct value per source (a boolean source always disagrees with the one it overrides; in half of the processes a winning file/flag value of the worker counts, stats address, log file and cpu-cap is the built-in default itself, i.e. 200, the empty string, 100%); the -config option stands first, last or in the middle of the command line; string-valued keys are written plain, double-quoted or single-quoted in the file; in half of the processes the file begins with 6 or 70 KiB of comment lines; boolean environment values use every spelling strconv.ParseBool takes (true/True/TRUE/1/t/T ...); thorough adds random subsets/values. The real binary is started and the effective value is read back behaviourally: UDP/TCP sockets of the process from /proc, Workers from /flow or /metrics, which endpoint answers, files that appear (pid, log, cache files after SIGTERM), the verbose banner. Expected = flag ?? file ?? env ?? built-in default. distinct = source assignment")
+	run.SetRule("every observed key (4 UDP ports, 4 enable switches, 4 worker counts, stats port/address/format/enabled, pid file, log file, verbose, 2 cache files, cpu-cap, producer-enabled, dynamic-workers, ipfix-rpc-enabled: integer, string and boolean kinds) gets an independent subset of {VFLOW_* environment, configuration file, command line} by a Latin square over 16 collector processes (every key meets all 8 subsets), with a distinct value per source (a boolean source always disagrees with the one it overrides; in half of the processes a winning file/flag value of the worker counts, stats address, log file and cpu-cap is the built-in default itself, i.e. 200, the empty string, 100%); the -config option stands first, last or in the middle of the command line; string-valued keys are written plain, double-quoted or single-quoted in the file; in half of the processes the file begins with 6 or 70 KiB of comment lines, in a quarter it is reached through a symbolic link; boolean environment values use every spelling strconv.ParseBool takes (true/True/TRUE/1/t/T ...); thorough adds random subsets/values. The real binary is started and the effective value is read back behaviourally: UDP/TCP sockets of the process from /proc, Workers from /flow or /metrics, which endpoint answers, files that appear (pid, log, cache files after SIGTERM), the verbose banner. Expected = flag ?? file ?? env ?? built-in default. distinct = source assignment")
 	run.Assume("keys without an external observable (*-udp-size, mirror settings, topics with the rawSocket backend, mq-name) and the list-valued sflow-type-filter are not covered")
 	run.Finish()
 }
